@@ -390,6 +390,83 @@ fn cache_history(abbrev: &[u8], offsets: &[u32]) -> Option<String> {
     None
 }
 
+/// a cache with a past: populated (or `set`) for sections A, then re-populated for sections B —
+/// in B's own `Dwarf` after moving the cache over, or in A's `Dwarf` after replacing its sections.
+/// After `populate` nothing of the past may be observable: every unit of B gets what an uncached
+/// parse gives.
+fn cache_rehistory(ab_a: &[u8], offs_a: &[u32], ab_b: &[u8], offs_b: &[u32], first: &str, second: &str, how: &str) -> Option<String> {
+    let info_of = |offsets: &[u32]| {
+        let mut info = Vec::new();
+        for &o in offsets {
+            info.extend_from_slice(&7u32.to_le_bytes());
+            info.extend_from_slice(&4u16.to_le_bytes());
+            info.extend_from_slice(&o.to_le_bytes());
+            info.push(8);
+        }
+        info
+    };
+    let strategy = |s: &str| match s {
+        "dup" => Some(AbbreviationsCacheStrategy::Duplicates),
+        "all" => Some(AbbreviationsCacheStrategy::All),
+        _ => None,
+    };
+    let (info_a, info_b) = (info_of(offs_a), info_of(offs_b));
+    let observe = |dwarf: &gimli::read::Dwarf<R<'_>>| -> Vec<String> {
+        let mut out = Vec::new();
+        let mut it = dwarf.units();
+        while let Ok(Some(h)) = it.next() {
+            for _ in 0..2 {
+                out.push(match dwarf.abbreviations(&h) {
+                    Ok(a) => format!("{:?}", a),
+                    Err(e) => format!("E{}", rerr(&e)),
+                });
+            }
+        }
+        out
+    };
+    let mut fresh = gimli::read::Dwarf::<R<'_>>::default();
+    fresh.debug_abbrev = DebugAbbrev::new(ab_b, LittleEndian);
+    fresh.debug_info = DebugInfo::new(&info_b, LittleEndian);
+    let expect = observe(&fresh);
+    // the past
+    let mut da = gimli::read::Dwarf::<R<'_>>::default();
+    da.debug_abbrev = DebugAbbrev::new(ab_a, LittleEndian);
+    da.debug_info = DebugInfo::new(&info_a, LittleEndian);
+    match first {
+        "set" => {
+            for &o in offs_a {
+                if let Ok(a) = da.debug_abbrev.abbreviations(gimli::DebugAbbrevOffset(o as usize)) {
+                    da.abbreviations_cache.set::<R<'_>>(gimli::DebugAbbrevOffset(o as usize), std::sync::Arc::new(a));
+                }
+            }
+        }
+        f => da.populate_abbreviations_cache(strategy(f)?),
+    }
+    let _ = observe(&da);
+    // the present
+    let mut db = gimli::read::Dwarf::<R<'_>>::default();
+    match how {
+        "move" => {
+            db.debug_abbrev = DebugAbbrev::new(ab_b, LittleEndian);
+            db.debug_info = DebugInfo::new(&info_b, LittleEndian);
+            db.abbreviations_cache = std::mem::take(&mut da.abbreviations_cache);
+        }
+        "replace" => {
+            da.debug_abbrev = DebugAbbrev::new(ab_b, LittleEndian);
+            da.debug_info = DebugInfo::new(&info_b, LittleEndian);
+            db = da;
+        }
+        _ => return Some("bad-history".into()),
+    }
+    db.populate_abbreviations_cache(strategy(second)?);
+    let got = observe(&db);
+    if got != expect {
+        let i = got.iter().zip(expect.iter()).position(|(x, y)| x != y).unwrap_or(0);
+        return Some(format!("stale-cache after {first}->{second} ({how}): unit {} differs from an uncached parse", i / 2));
+    }
+    None
+}
+
 pub fn handle(op: &str, a: &[&str]) -> Option<String> {
     let verdict = |o: Option<String>| match o {
         None => "ok same".to_string(),
@@ -418,6 +495,14 @@ pub fn handle(op: &str, a: &[&str]) -> Option<String> {
         }
         ("c20-clone", [ab, unit, line, frame, k]) => {
             Some(verdict(clone_history(&unhex(ab)?, &unhex(unit)?, &unhex(line)?, &unhex(frame)?, k.parse().ok()?)))
+        }
+        ("c20-recache", [ab_a, offs_a, ab_b, offs_b, first, second, how]) => {
+            let pa: Vec<u32> = offs_a.split(',').map(|s| s.parse().ok()).collect::<Option<_>>()?;
+            let pb: Vec<u32> = offs_b.split(',').map(|s| s.parse().ok()).collect::<Option<_>>()?;
+            if !["dup", "all", "set"].contains(first) || !["dup", "all"].contains(second) {
+                return Some("bad-op".into());
+            }
+            Some(verdict(cache_rehistory(&unhex(ab_a)?, &pa, &unhex(ab_b)?, &pb, first, second, how)))
         }
         ("c20-cache", [ab, offs]) => {
             let offs: Vec<u32> = offs.split(',').map(|s| s.parse().ok()).collect::<Option<_>>()?;
@@ -553,5 +638,23 @@ pub fn gen(ctx: &Ctx, emit: &mut dyn FnMut(String)) {
         let n = 1 + rng.below(6);
         let l: Vec<String> = (0..n).map(|_| rng.pick(&offs).to_string()).collect();
         emit(format!("c20-cache {} {}", hex(&ab), l.join(",")));
+    }
+    // caches with a past: another file whose tables sit at the same offsets with other contents
+    // (valid where the first is invalid and the other way round)
+    let mut ab2 = t2.clone();
+    ab2.resize(o2 as usize, 0);
+    ab2.extend(&t1);
+    ab2.resize(o3 as usize, 0);
+    ab2.extend(&t2);
+    for _ in 0..ctx.n(300, 4000) {
+        let pick = |rng: &mut Rng| -> String {
+            let n = 1 + rng.below(5);
+            (0..n).map(|_| rng.pick(&offs).to_string()).collect::<Vec<_>>().join(",")
+        };
+        let (fa, fb) = if rng.chance(1, 2) { (&ab, &ab2) } else { (&ab2, &ab) };
+        let first = *rng.pick(&["dup", "all", "all", "set"]);
+        let second = *rng.pick(&["dup", "all", "all"]);
+        let how = *rng.pick(&["move", "replace"]);
+        emit(format!("c20-recache {} {} {} {} {first} {second} {how}", hex(fa), pick(&mut rng), hex(fb), pick(&mut rng)));
     }
 }
